@@ -17,6 +17,19 @@ META = {
     },
 }
 
+META["C11"] = {
+    "budget": {"quick": 25, "thorough": 600},
+    "rule": "one case = schema (shuffled state order, Auto/Multi, mutually Removing states, Add fans, After/Require graphs incl. cycles) + handler veto/mutation plan + one single-goroutine mutation history, executed 64 times against fresh machines; per step the result, machine time, active-state order, handler-call sequence (with the view each handler saw) and transition records are compared with the first execution; non-trivial = the history produced more than one transition; distinct = distinct plans",
+    "components": {"real": MACHINE_REAL, "stub": []},
+    "assumptions": [
+        "Go randomises map iteration start per range statement, so 64 in-process repetitions expose a two-way order dependence with probability > 1 - 1e-6",
+        "random identifiers (transition ids) are not part of the compared behaviour",
+    ],
+    "probes": [],
+    "level_text": "seeded search over schemas and single-goroutine histories, each re-executed 64 times in one process and compared step by step; decides map-order and identifier dependence for the sampled cases only",
+    "level_note": "trusts Go's per-iteration map randomisation as the source of order perturbation; compares observable API results, times, handler sequences",
+}
+
 NOT_YET = "check not built yet in this session (planned, see DESIGN.md section 5)"
 NOT_APPLICABLE = {
     "C19": "no schedule, clock, fault or multi-party behaviour: a static well-formedness scan of schema literals plus an exhaustive breadth-first enumeration of reachable active sets, i.e. bounded model checking, not deterministic simulation (DESIGN.md section 6)",
